@@ -101,11 +101,13 @@ pub fn c11_case(fam: &str, idx: usize, seed: u64) -> Option<Case> {
             let seg = k.seg as usize;
             let cfg = k.config();
             let n_tr = 4 + rng.usize(if idx % 4 == 0 { 37 } else { 10 });
+            // every 5th scenario: a few long files delivered in a burst, so that the per-transaction queues fill up
+            let burst = idx % 5 == 2;
             let mut transfers = vec![];
             for t in 0..n_tr {
                 let src = rng.usize(n_ent);
                 let dst = (src + 1 + rng.usize(n_ent - 1)) % n_ent;
-                let size = *rng.pick(&[0usize, 9, seg, seg + 1, 3 * seg, 5 * seg + 7, 2 * seg - 1]);
+                let size = if burst && t < 3 { (130 + rng.usize(300)) * seg - rng.usize(seg) } else { *rng.pick(&[0usize, 9, seg, seg + 1, 3 * seg, 5 * seg + 7, 2 * seg - 1]) };
                 // tagged content: the transfer's index is written all over it
                 let mut c: Vec<u8> = (0..size).map(|i| ((i * 7 + t * 31) % 251) as u8).collect();
                 for (i, b) in c.iter_mut().enumerate() {
@@ -134,6 +136,11 @@ pub fn c11_case(fam: &str, idx: usize, seed: u64) -> Option<Case> {
                 plant: vec![],
         dropper: None,
             };
+            if burst {
+                sc.paced = false;
+                sc.tx_ms = 0;
+                sc.latency_ms = 0;
+            }
             // loss within the hypothesis: at most 3 drops per unordered pair of entities (limit 4), plus dups / delays
             for a in 0..n_ent {
                 for b in (a + 1)..n_ent {
@@ -289,7 +296,7 @@ pub fn run_c11(tier: &str, seed: u64, replay: Option<&str>) -> (Meta, Report) {
     let meta = Meta {
         property: "C11",
         level: "exploration",
-        rule: "seeded scenarios: 2-3 real daemons, 4-40 transfers with distinct tagged files started within 60 ms in random directions, 1/3 unacknowledged, random knobs, limit 4 with at most 3 drops per pair of entities (C02 hypothesis) plus duplications and delays, paced or burst delivery, 0-7 injected stray PDUs (responses to non-existent senders, PDUs naming entity 99, data/EOF/metadata of transactions nobody started, random bytes, truncated PDUs) and 0-2 replays of recorded PDUs up to 8 s later; every run ends with a probe transfer and a Report. distinct_nontrivial = distinct (config, event-order) signatures.".into(),
+        rule: "seeded scenarios: 2-3 real daemons, 4-40 transfers with distinct tagged files started within 60 ms in random directions, 1/3 unacknowledged, random knobs, limit 4 with at most 3 drops per pair of entities (C02 hypothesis) plus duplications and delays, paced or burst delivery (every 5th scenario: up to three files of 130-430 segments delivered in one burst, filling the daemon's per-transaction queues), 0-7 injected stray PDUs (responses to non-existent senders, PDUs naming entity 99, data/EOF/metadata of transactions nobody started, random bytes, truncated PDUs) and 0-2 replays of recorded PDUs up to 8 s later; every run ends with a probe transfer and a Report. distinct_nontrivial = distinct (config, event-order) signatures.".into(),
         exhaustive: false,
         assumptions: vec!["unacknowledged transfers carry no delivery guarantee under loss: for them only 'a reported delivery holds the transfer's own file' and termination are judged".into(), "sequence numbers are 2 bytes wide".into()],
         require: vec![("c11_ack_transfers_judged".into(), 2000), ("c11_stray_tasks_judged".into(), 50), ("c11_probes".into(), 100), ("c11_runs:3-daemons".into(), 50)],
